@@ -526,19 +526,23 @@ def run_c13(prop, tier):
 # =============================================================================================
 # C06: transform consistency of the converting reader (coverage vs lookup vs stream), MIR -> SMT
 # =============================================================================================
-def dump_mir_container():
+def dump_mir_crate(crate):
 	os.makedirs(vlib.WORK, exist_ok=True)
 	r = vlib.sh(["rsync", "-a", "--delete", "--exclude", "/target", "--exclude", ".git", vlib.REPO + "/", MIRWS + "/"])
 	if r.returncode != 0:
 		raise Inconclusive("rsync failed")
-	os.utime(os.path.join(MIRWS, "versatiles_container", "src", "lib.rs"))
+	os.utime(os.path.join(MIRWS, crate, "src", "lib.rs"))
 	env = dict(vlib.ENV)
 	env["CARGO_TARGET_DIR"] = MIRTARGET
-	p = subprocess.run(["cargo", "+nightly", "rustc", "--offline", "-p", "versatiles_container", "--lib", "--", "-Zunpretty=mir"],
+	p = subprocess.run(["cargo", "+nightly", "rustc", "--offline", "-p", crate, "--lib", "--", "-Zunpretty=mir"],
 		cwd=MIRWS, env=env, stdout=subprocess.PIPE, stderr=subprocess.PIPE, text=True)
 	if p.returncode != 0 or "fn " not in p.stdout:
-		raise Inconclusive("MIR dump of versatiles_container failed: " + p.stderr[-400:])
+		raise Inconclusive(f"MIR dump of {crate} failed: " + p.stderr[-400:])
 	return p.stdout
+
+
+def dump_mir_container():
+	return dump_mir_crate("versatiles_container")
 
 
 def flag_field_indices():
@@ -964,4 +968,175 @@ def run_c06_transform(prop, tier, kinds=("spec", "lookup", "stream_coord", "stre
 							out["inconclusive"].append(f"transform {kind} flip={flip} swap={swap}: solver counterexample did not reproduce natively")
 	except Inconclusive as e:
 		out["inconclusive"].append("transform consistency (MIR): " + str(e))
+	return out
+
+
+# =============================================================================================
+# C09: the filter operations themselves (filter_zoom / filter_bbox): lookup guard vs stream clip, from the MIR
+# =============================================================================================
+C09_REPLAY_MAIN = r'''
+// Native replay for C09 (filter operations): real pipelines built by the real factory over `from_debug` (a source that has
+// every tile at every level). For a battery of filter arguments (including an empty retained range) and request boxes the
+// stream must deliver exactly the tiles that single lookups return inside the box, and both must be exactly the tiles inside
+// the coverage the operation advertises.
+use versatiles_core::types::*;
+use versatiles_pipeline::PipelineFactory;
+
+fn main() {
+	let rt = tokio::runtime::Builder::new_multi_thread().enable_all().build().unwrap();
+	rt.block_on(run());
+}
+
+async fn run() {
+	let which = std::env::args().nth(1).unwrap_or_default();
+	let vpls: Vec<String> = if which == "filter_zoom" {
+		vec!["min=2 max=4", "max=3", "min=3", "min=5 max=3", "min=0 max=0", "min=6 max=31"].into_iter().map(|a| format!("from_debug format=pbf | filter_zoom {a}")).collect()
+	} else {
+		vec!["bbox=[-10,-10,10,10]", "bbox=[-180,-85,180,85]", "bbox=[100,40,101,41]", "bbox=[-179,-80,-178,-79]"].into_iter().map(|a| format!("from_debug format=pbf | filter_bbox {a}")).collect()
+	};
+	let factory = PipelineFactory::new_dummy();
+	let mut bad = 0;
+	for vpl in vpls {
+		let op = factory.operation_from_vpl(&vpl).await.unwrap();
+		let advertised = op.get_parameters().bbox_pyramid.clone();
+		for z in 0..=6u8 {
+			let m = (1u32 << z) - 1;
+			let boxes = vec![TileBBox::new(z, 0, 0, m, m).unwrap(), TileBBox::new(z, m / 2, m / 3, m, m / 2 + m / 4).unwrap()];
+			for bbox in boxes {
+				if bbox.is_empty() { continue; }
+				let mut items = op.get_tile_stream(bbox.clone()).await.collect().await;
+				items.sort_by_key(|(c, _)| (c.z, c.y, c.x));
+				let mut looked = Vec::new();
+				for c in bbox.iter_coords() {
+					let got = op.get_tile_data(&c).await.unwrap();
+					if got.is_some() != advertised.contains_coord(&c) {
+						bad += 1;
+						if bad < 10 { println!("{vpl}: lookup at {c:?} returns {} but advertised coverage says {}", got.is_some(), advertised.contains_coord(&c)); }
+					}
+					if let Some(b) = got { looked.push((c, b)); }
+				}
+				looked.sort_by_key(|(c, _)| (c.z, c.y, c.x));
+				if items.len() != looked.len() || items.iter().zip(looked.iter()).any(|(a, b)| a.0 != b.0 || a.1.as_slice() != b.1.as_slice()) {
+					bad += 1;
+					if bad < 10 { println!("{vpl}: stream over {bbox:?} delivers {} tiles, lookups inside the box return {}", items.len(), looked.len()); }
+				}
+			}
+		}
+	}
+	if bad > 0 { println!("REPRODUCED: {bad} mismatches"); std::process::exit(1); }
+	println!("not reproduced");
+}
+'''
+
+
+def c09_native_replay(op):
+	d = os.path.join(vlib.WORK, "c09-replay")
+	shutil.rmtree(d, ignore_errors=True)
+	os.makedirs(os.path.join(d, "src"))
+	with open(os.path.join(d, "Cargo.toml"), "w") as f:
+		f.write('[package]\nname = "c09_replay"\nversion = "0.0.0"\nedition = "2021"\n[workspace]\n[dependencies]\n'
+			f'versatiles_core = {{ path = "{MIRWS}/versatiles_core", default-features = false }}\n'
+			f'versatiles_pipeline = {{ path = "{MIRWS}/versatiles_pipeline" }}\n'
+			'futures = "0.3"\nanyhow = "1"\ntokio = { version = "1", features = ["rt-multi-thread"] }\n')
+	with open(os.path.join(d, "src", "main.rs"), "w") as f:
+		f.write(C09_REPLAY_MAIN)
+	shutil.copyfile(os.path.join(vlib.REPO, "Cargo.lock"), os.path.join(d, "Cargo.lock"))
+	env = dict(vlib.ENV)
+	env["CARGO_TARGET_DIR"] = os.path.join(vlib.WORK, "target-c13")
+	p = subprocess.run(["cargo", "run", "--offline", "--release", "--", op], cwd=d, env=env, stdout=subprocess.PIPE, stderr=subprocess.STDOUT, text=True)
+	return ("REPRODUCED" in p.stdout), p.stdout[-3000:]
+
+
+def c09_query(kind, lookup, stream):
+	"""P = the operation's own level box (Pe: empty at this level), Q = requested box, p = (x, y) a tile of the level.
+	lookup / stream: op lists of ("guard"|"clip", which) and coordinate transforms (none expected)."""
+	L = ["(set-logic ALL)", "(declare-const z Int)", "(declare-const M Int)", "(declare-const x Int)", "(declare-const y Int)", "(declare-const Pe Bool)",
+		"(assert (and (>= z 0) (<= z 31)))"]
+	L.append("(assert (or " + " ".join(f"(and (= z {k}) (= M {2 ** k - 1}))" for k in range(32)) + "))")
+	for b in ("P", "Q"):
+		for v in ("x0", "y0", "x1", "y1"):
+			L.append(f"(declare-const {b}{v} Int)")
+		L.append(f"(assert (and (>= {b}x0 0) (<= {b}x0 {b}x1) (<= {b}x1 M) (>= {b}y0 0) (<= {b}y0 {b}y1) (<= {b}y1 M)))")
+	L.append("(assert (and (>= x 0) (<= x M) (>= y 0) (<= y M)))")
+	in_p = lambda px, py: "(and (not Pe) " + _inbox("P", px, py) + ")"
+	# lookup: the requested coordinate travels through the op list; every guard must hold; the source is asked at the result
+	lx, ly = "x", "y"
+	g = []
+	for op, arg in lookup:
+		if op in ("flip", "swap"):
+			lx, ly = _t(op, lx, ly)
+		elif op in ("guard", "clip"):
+			g.append(in_p(lx, ly))
+	passes = "(and true " + " ".join(g) + ")"
+	if kind == "lookup_spec":
+		# a tile is returned exactly when it lies in the operation's coverage, and it is the source tile at the same coordinate
+		L.append(f"(assert (not (and (= {passes} {in_p('x', 'y')}) (= {lx} x) (= {ly} y))))")
+	else:
+		# stream: the box handed to the source; a source tile p is delivered iff p lies in that box
+		sx, sy = "x", "y"
+		c = []
+		for op, arg in reversed(stream):
+			if op in ("flip", "swap"):
+				sx, sy = _t(op, sx, sy)
+			elif op in ("guard", "clip"):
+				c.append(in_p(sx, sy))
+		delivered = "(and " + _inbox("Q", sx, sy) + " " + " ".join(c) + ")"
+		L.append(f"(assert (not (= {delivered} (and " + _inbox("Q", "x", "y") + f" {passes}))))")
+	L.append("(check-sat)")
+	L.append("(get-model)")
+	return "\n".join(L) + "\n"
+
+
+def run_c09_ops(prop, tier):
+	out = {"rc": 0, "queries": [], "samples": [], "inconclusive": [], "violations": 0, "lines": [], "funcs": []}
+	try:
+		mir = dump_mir_crate("versatiles_pipeline")
+		solvers = ["z3"] if tier == "quick" else ["z3", "cvc5"]
+		known = vlib.load_known()
+		KEEP = ("flip", "swap", "clip", "guard")
+		for op in ("filter_zoom", "filter_bbox"):
+			base = op + r"::<impl at [^>]*>::"
+			look, n1, h1 = transform_paths(mir, base + r"get_tile_data::\{closure#0\}\(", -1, -1, source_call=r"OperationTrait>::get_tile_data")
+			strm, n2, h2 = transform_paths(mir, base + r"get_tile_stream::\{closure#0\}\(", -1, -1, source_call=r"OperationTrait>::get_tile_stream")
+			out["funcs"] += [h[:130] for h in (h1, h2)]
+			for n in sorted(set(n1 + n2)):
+				out["inconclusive"].append(f"{op}: {n} (a data-dependent early exit is outside the guard/clip model)")
+			key = (False, False, False)
+			l = [t for t in look[key] if t[0] in KEEP]
+			s = [t for t in strm[key] if t[0] in KEEP]
+			sample = {"operation": op, "lookup_calls": l, "stream_calls": s}
+			out["samples"].append(sample)
+			for kind in ("lookup_spec", "stream_vs_lookup"):
+				smt = c09_query(kind, l, s)
+				verdicts = []
+				for sv in solvers:
+					v, o, dt = run_solver(smt, sv)
+					verdicts.append(v)
+					out["queries"].append({"flags": op, "query": kind, "solver": sv, "verdict": v, "expected": "unsat", "seconds": round(dt, 2)})
+				v0 = verdicts[0]
+				if any(v != v0 for v in verdicts) or v0 not in ("sat", "unsat"):
+					out["inconclusive"].append(f"{op} {kind}: solver verdicts {verdicts}")
+					continue
+				if v0 == "sat":
+					vals = model_values(o)
+					what = (f"{op}: {kind} fails (z={vals.get('z')}, tile ({vals.get('x')},{vals.get('y')}), coverage empty at this level={vals.get('Pe')}); "
+						f"calls on the lookup path {l}, on the stream path {s}")
+					k = next((k for k in known.get("findings", []) if k["property"] == prop and k.get("harness") == f"{op}_{kind}"), None)
+					if k:
+						out["lines"].append(f"KNOWN-FINDING: property={prop} {k['id']}: {k['what']}")
+						continue
+					rdir = os.path.join(vlib.VERIF, "replay", prop)
+					os.makedirs(rdir, exist_ok=True)
+					rpath = os.path.join(rdir, f"{op}_{kind}.json")
+					json.dump({"what": what, "sample": sample, "model": vals}, open(rpath, "w"), indent=1)
+					rep, log = c09_native_replay(op)
+					open(rpath + ".native.log", "w").write(log)
+					if rep:
+						out["lines"].append(f"VIOLATION property={prop} replay={rpath} {what}")
+						out["violations"] += 1
+						out["rc"] = 1
+					else:
+						out["inconclusive"].append(f"{op} {kind}: solver counterexample did not reproduce natively")
+	except Inconclusive as e:
+		out["inconclusive"].append("filter operations (MIR): " + str(e))
 	return out
